@@ -11,12 +11,12 @@ import time
 from . import common as C
 from . import progs
 
-THEOREMS = ["valOf_bv", "bv_valOf", "add_correct", "sub_correct", "mul_correct", "quo_correct_partial", "rem_correct_partial",
-            "neg_correct_partial", "not_correct", "fixNumber_wrap", "conv_correct", "cmp_correct",
-            "scheme_correct_partial", "scheme_un_correct_partial",
-            "quo_min_counterexample", "rem_negzero_counterexample", "neg_min_counterexample", "neg_zero_counterexample",
-            "shr_const_count_counterexample", "shift_negative_count_counterexample",
-            "repr_inv", "repr_inv_un", "repr_inv_conv", "repr_inv_fixNumber", "repr_inv_counterexample",
+THEOREMS = ["valOf_bv", "bv_valOf", "add_correct", "sub_correct", "mul_correct", "quo_correct", "rem_correct",
+            "neg_correct", "not_correct", "fixNumber_wrap", "conv_correct", "cmp_correct", "bitwise_correct", "shift_correct",
+            "scheme_correct", "scheme_un_correct", "shift_negative_count_documented",
+            "repr_inv", "repr_inv_un", "repr_inv_conv", "repr_inv_fixNumber", "repr_inv_shift",
+            "neg_min_counterexample_v0", "neg_zero_counterexample_v0", "quo_min_counterexample_v0", "rem_negzero_counterexample_v0",
+            "shr_const_count_counterexample_v0",
             "exact_doubles", "exact_doubles_plain_mul_fails",
             "mk64_canon", "mk64_value", "add64_correct", "sub64_correct", "neg64_correct", "valOf_toBV", "flatten64_exact",
             "mul64_correct", "mul64_scheme", "specShift_clamp"]
@@ -254,6 +254,14 @@ func tf(b bool) string {
 	return "f"
 }
 """
+
+
+def run_jobs(jobs, par):
+    """progs.run_jobs, rebuilding the harness binary when it has vanished (parallel mutation trials of other checks clean harness/bin)"""
+    import os
+    if not os.path.exists(C.gvh_path("gvh")):
+        progs._built = False
+    return progs.run_jobs(jobs, par=par)
 
 
 def lit(ty, v):
@@ -520,25 +528,8 @@ def norm_bool(a):
 
 
 def classify(op, impl, spec):
-    """signature of a failing case; only the exact witness classes of the recorded findings get one"""
-    p = op.split()
-    kind, ty = p[1], p[2]
-    if kind == "sh" and spec == "panic" and int(p[6]) < 0 and not impl.startswith("panic"):
-        return "C06 op=shift count<0 observed=no-panic"
-    if ty not in SMALL:
-        return None
-    bits, signed = SMALL[ty]
-    if kind == "sh" and p[3] == "shr" and p[4] == "c" and signed and int(p[5]) < 0 and int(p[6]) >= 32 and impl == "0" and spec == "-1":
-        return "C06 op=shr type=signed-non64 constant-count>=32 operand<0 observed=0"
-    if kind == "bin" and p[3] == "rem" and signed and impl == "-0" and spec == "0" and int(p[4]) < 0:
-        return "C06 op=rem type=signed-non64 dividend<0 result=0 observed=-0"
-    if kind == "un" and p[3] == "neg" and signed and impl == "-0" and spec == "0" and int(p[4]) == 0:
-        return "C06 op=neg type=signed-non64 operand=0 observed=-0"
-    if kind == "un" and p[3] == "neg" and signed and int(p[4]) == -(1 << (bits - 1)) and impl == str(1 << (bits - 1)) and spec == p[4]:
-        return "C06 op=neg type=signed-non64 operand=MIN observed=-MIN-unwrapped"
-    if kind == "bin" and p[3] == "quo" and ty in ("int8", "int16") and int(p[4]) == -(1 << (bits - 1)) and int(p[5]) == -1 \
-            and impl == str(1 << (bits - 1)) and spec == p[4]:
-        return "C06 op=quo type=int8|int16 MIN/-1 observed=-MIN-unwrapped"
+    """signature of a failing integer case: none is recorded any more (the round-1 defects were repaired by the fixes
+    C06-unary-minus, C06-quo-fixup, C06-rem-fixup, C06-shr-const-count), so every failing case is a VIOLATION"""
     return None
 
 
@@ -556,7 +547,7 @@ def run_program_tie(chk, tier, groups):
                      "files": {"main.go": program_source(ty, units), "helpers_js.go": HELPERS_JS, "helpers_native.go": HELPERS_NATIVE},
                      "variants": ["plain"], "native": native, "timeout": 120})
     t0 = time.time()
-    results = progs.run_jobs(jobs, par=14)
+    results = run_jobs(jobs, 14)
     chk.extra["program_wall_s"] = round(time.time() - t0, 1)
     # driver queries (deduplicated over shapes)
     qset = {}
@@ -569,6 +560,15 @@ def run_program_tie(chk, tier, groups):
     spec = C.run_driver("C06", ["num spec " + q[4:] for q in qs])
     M = dict(zip(qs, model))
     S = dict(zip(qs, spec))
+    # DOCUMENTED, PERMITTED DIFFERENCE (C01: "shifting by a negative count does not panic"): for a negative count Go panics, GopherJS
+    # computes the JS shift (count masked with 31). Those cases are held to the model's answer (Lean: shift_negative_count_documented)
+    # and are not compared with native Go.
+    allowed_diff = set()
+    for q in qs:
+        p = q.split()
+        if p[1] == "sh" and int(p[6]) < 0:
+            S[q] = M[q]
+            allowed_diff.add(q)
     nprog = 0
     ncases = 0
     native_cases = 0
@@ -602,6 +602,10 @@ def run_program_tie(chk, tier, groups):
                 if len(nt) != len(u.cases):
                     raise RuntimeError("native output shape of %s/%s" % (job["id"], u.uid))
                 for c, a, b in zip(u.cases, nt, spc):
+                    if c in allowed_diff:
+                        if a != "panic":
+                            model_bugs.append((c, a, "panic (Go spec)"))
+                        continue
                     native_cases += 1
                     if a != b:
                         model_bugs.append((c, a, b))
@@ -734,10 +738,6 @@ def float_signature(label, impl, spec):
             return "C06 op=complex-quo operand-component in {0,-0,Inf,-Inf,NaN}"
         if len(v) == 4 and abs(v[2]) == abs(v[3]) and impl.replace("2147483648:0", "0:0") == spec.replace("2147483648:0", "0:0"):
             return "C06 op=complex-quo |re(d)|=|im(d)| zero-sign"
-    if p[0] == "conv" and p[1] in ("float64->uint64", "float64->int64", "float32->uint64", "float32->int64"):
-        f = float(p[2])
-        if f != math.floor(f) and math.ceil(abs(f)) % 4294967296 == 0:
-            return "C06 conv float->64-bit fraction just below a multiple of 2^32"
     return None
 
 
@@ -749,7 +749,7 @@ def run_float_tie(chk):
         jobs.append({"id": "c06_" + part, "files": {"main.go": src, "helpers_js.go": HELPERS_JS, "helpers_native.go": HELPERS_NATIVE},
                      "variants": ["plain"], "native": True, "timeout": 120})
         labs.append(labels)
-    res = progs.run_jobs(jobs, par=2)
+    res = run_jobs(jobs, 2)
     n = 0
     for job, labels, r in zip(jobs, labs, res):
         js = progs.observe_js(r["runs"]["plain"])
@@ -796,17 +796,7 @@ def chain_spec(ty, name, x):
 
 
 def chain_signature(label, impl, spec):
-    _, ty, name, x = label.split()[:4]
-    x = int(x)
-    if ty not in SMALL or not SMALL[ty][1]:
-        return None
-    bits = SMALL[ty][0]
-    if name == "negneg" and impl == "%d/%d" % (x - 1, x - 1):
-        return "C06 unary-minus-of-unary-minus emitted as decrement"
-    if name == "negnot" and x == -1 and impl == "-0/-1":
-        return "C06 op=neg type=signed-non64 operand=0 observed=-0"
-    if name == "negnot" and x == (1 << (bits - 1)) - 1 and impl == "%d/%d" % (1 << (bits - 1), x):
-        return "C06 op=neg type=signed-non64 operand=MIN observed=-MIN-unwrapped"
+    """`- -a` (emitted as `--a`), `- ^a` at 0 / MIN were repaired by the fix C06-unary-minus: nothing is recorded any more"""
     return None
 
 
@@ -828,7 +818,7 @@ def run_chain_tie(chk):
     src.append("}")
     job = {"id": "c06_chain", "files": {"main.go": "\n".join(src) + "\n", "helpers_js.go": HELPERS_JS, "helpers_native.go": HELPERS_NATIVE},
            "variants": ["plain", "minify"], "native": True, "timeout": 60}
-    r = progs.run_jobs([job], par=1)[0]
+    r = run_jobs([job], 1)[0]
     nat = progs.observe_native(r["runs"]["native"])
     tn = " ".join(nat[0]).split()
     if nat[1] != "exit0" or len(tn) != len(labels):
